@@ -65,7 +65,7 @@ def neighbor_block(n: dict) -> str:
         out.append('    }')
     api = n.get('api')
     if api:
-        out.append(f'    api api-{n["peer_ip"].replace(".", "-").replace(":", "-")} {{')
+        out.append(f'    api api-{n["peer_ip"].replace(".", "-").replace(":", "-").replace("/", "-")} {{')
         out.append(f'        processes [ {" ".join(api["processes"])} ];')
         for opt in api.get('options', []):
             out.append(f'        {opt};')
